@@ -3,7 +3,7 @@ prop(
     quick=[("native", 16)],
     thorough=[("native", 16), ("asan", 8), ("miri", 4)],
     level="exploration",
-    min_evals={"quick": 3_000_000, "thorough": 150_000_000},
+    min_evals={"quick": 10_000_000, "thorough": 350_000_000},
     rule=(
         "manifest eContent assembled by the harness' own DER/BER writer: 0..2000 entries (classes 0 / 1 / 2-10 / 11-100 / 101-500 / 501-2000), "
         "file names from 9 valid shapes (plain, A-_9.CER style, 1-char stem, long stems up to the 1100-octet name, dash/underscore-only, digits-only, upper-case extension, key-identifier-like) "
@@ -17,7 +17,22 @@ prop(
         "For each decoded manifest the oracle judges every listed name, len vs iter count, the yielded entries vs the encoded ones, time order, iter_uris over up to 7 base URIs (with/without trailing slash, nested, "
         "upper-case scheme/authority, file-like) and ManifestHash::verify for entries whose hash is SHA-256(data), one bit off, truncated, extended, empty or of other data; plus ManifestHash::new over the same relations "
         "and all 256 single-bit differences of one digest. evaluations = single oracle decisions (one decode outcome, one name, one URI, one verify, one count/time comparison). "
-        "A case signature is (decode path, plan, name shape @ position, accepted / rejected-for-the-name, entry-count class, hash-length class, time order) for manifests and (base shape, entry-count class, name shape) for URI resolution and "
+        "Second workload (native and ASan stages; 6 400 / 160 000 object cases): the manifest is tied to its own signed object. Per case an EE certificate is issued with chosen URIs "
+        "(SIA signedObject, CRL distribution point, AIA caIssuers; last segments drawn from the valid name shapes, usual or other extensions, mixed case) and a chosen validity window, and the file list "
+        "contains names related to those URIs: the manifest's own file name (once / only entry / twice or three times / every entry), the CRL's and the issuer certificate's file name, all three, case variants of them, "
+        "names one edit away, a directory segment, the module or the authority of the URI (e.g. example.net) - first / middle / last / only / several positions, one case in twelve with a hostile name as well. "
+        "The EE window is placed relative to thisUpdate..nextUpdate (interval 0 s .. 1 y): covering, equal, inside, before (by 1 s, by more, ending exactly at thisUpdate), overlapping the start or the end, "
+        "starting at nextUpdate, after (by 1 s, by more), a single instant; five further layouts use a fixed window 2024..2124 so that the entry points reading the clock themselves can accept. "
+        "Each object goes through ManifestContent::take_from, Manifest::decode strict and relaxed (Bytes and slice sources; CMS variants as above), the Deref / AsRef / Borrow / Clone views, "
+        "to_captured -> decode again, content encode_ref -> take_from, serde round trips through the harness token format (human-readable and compact, two of the six transports each) and serde_json, "
+        "Manifest::validate_at under the issuing CA at notBefore / mid-window / notAfter in both modes, Manifest::validate, SignedObject::decode + decode_content and SignedObject::process. "
+        "Every content obtained that way - in particular the one handed back by validation - is held to the same laws as the decode result (names, len vs iter count, entries vs encoded, time order, "
+        "iter_uris over the standard bases plus the EE certificate's own URIs: directory of the signedObject, the signedObject URI itself, CRL URI, caIssuers URI; verify), with the entry point in the violation signature "
+        "(suffix :content-returned-by-validation, :after-serde-round-trip, :after-re-encoding, :via-signed-object, :through-a-view-or-clone); the returned content is also compared field by field "
+        "(manifest number, times, algorithm, len, names, hashes) with content() before validation and differences are counted as observations object:returned-content-differs-from-decoded-content:<field>. "
+        "Object case signatures: (path, relation @ position, accepted / rejected-for-name, entry-count class, CMS variant), (serde transport, relation @ position, entry-count class) and "
+        "(validation path, EE window layout, instant of validation, relation, entry-count class, order of the returned times, equal to content() or not). "
+        "A case signature of the first workload is (decode path, plan, name shape @ position, accepted / rejected-for-the-name, entry-count class, hash-length class, time order) for manifests and (base shape, entry-count class, name shape) for URI resolution and "
         "(origin, hash relation, hash-length class, data length, unused bits) for verify; manifests rejected for a reason other than a name are trivial: counted in observations only."
     ),
     assumptions=[
@@ -25,6 +40,12 @@ prop(
         "SHA-256 oracle is aws-lc-rs called directly by the harness; a listed hash with unused bits > 0 is only checked in the direction 'verify Ok implies equal octets'",
         "decoder panics while decoding (not while iterating/resolving) are recorded as observations and left to C04",
         "the EE certificate inside the signed manifests is issued with the library's TbsCert under the harness key pool; signatures over the signed attributes come from aws-lc-rs directly; Manifest::decode does not verify them, a sample is additionally validated under the issuing CA as an observation",
+        "object workload: the per-case EE certificates come from the library's TbsCert as well (window and URIs chosen by the harness); validation uses the CA certificate validated once as trust anchor at 2030-06-01, "
+        "so only the EE window decides acceptance at the chosen instants; a validation that refuses is an observation (object:validation-failed:<reason>), never a violation",
+        "Manifest::validate and SignedObject::process read the clock themselves: their cases use an EE window 2024-01-01..2124-01-01 with the manifest interval before / inside / after / across its ends; "
+        "if the clock is outside that window they refuse, a note says so and only validate_at has been observed. No verdict depends on the clock",
+        "a returned content whose times differ from content() but are still ordered is counted, not asserted: the statement fixes the order, not the values; entries are asserted against what was encoded",
+        "hash verification of list entries is only judged for entries that are the encoded entry of the same index (a list that differs from the encoded one is reported as such, once)",
         "Miri stage covers the content-only path (take_from, iter, iter_uris) without hashing or signatures",
     ],
     level_text=(
@@ -32,7 +53,7 @@ prop(
         "the same workload is repeated under AddressSanitizer (including the aws-lc digest and the signed-object path) and, for the content-only path, under Miri. "
         "Exploration is the adequate level: the input space (all IA5 strings x list shapes) is unbounded, the risk is a missing or inconsistent check on one code path, which shape-directed generation reaches directly."
     ),
-    level_note="Sampled, not exhaustive: names are drawn from 45 shape classes and random strings; a hostile name outside these classes that slips through only one of the two decoders would be missed. Evidence lists per-reason rejection counts so that acceptance/rejection of each class is visible.",
-    technique="runtime oracle over an independent DER/BER + CMS encoder, ASan and Miri on the same workload",
+    level_note="Sampled, not exhaustive: names are drawn from 45 shape classes and random strings; a hostile name outside these classes that slips through only one of the two decoders would be missed. Names related to the object are limited to the last segments, one directory / module segment and the authority of the three URIs in the EE certificate, their case variants and one-edit neighbours; 17 window layouts, three instants each. Evidence lists per-reason rejection counts so that acceptance/rejection of each class is visible.",
+    technique="runtime oracle over an independent DER/BER + CMS encoder; per-case EE certificates (window, SIA/CRLDP/AIA names) tie the file list and the manifest interval to the signed object, every entry point handing out a ManifestContent (decode, views, re-encoding, serde transports, validate / validate_at, SignedObject::process) is held to the same laws; ASan and Miri on the same workload",
     design_ref="DESIGN.md §4 C14",
 )
